@@ -212,6 +212,107 @@ def schema_env_for_graph(deps, kinds):
 
 
 # ---------------------------------------------------------------------------
+# dependency graphs -> C++ headers for the sack front-end (C15, spec/DemandSort.tla)
+# ---------------------------------------------------------------------------
+def sack_kinds(deps, hidden):
+    """-> {node: (kind, form)}.  Visible definitions are what build_model sees
+    among the top-level cursors (named structs and enums, also inside extern
+    "C"); hidden ones are only ever built on demand: unions, classes,
+    definitions inside a namespace, anonymous structs named by a typedef."""
+    out = {}
+    for n in sorted(deps):
+        leaf = not deps[n]
+        if n in hidden:
+            if leaf and n % 2:
+                out[n] = ("enum", "ns")
+            elif not leaf and n % 2:
+                out[n] = ("union", ("plain", "ns")[(n // 2) % 2])
+            else:
+                out[n] = ("struct", ("ns", "anon", "class")[(n + len(deps[n])) % 3])
+        else:
+            if leaf and n % 2:
+                out[n] = ("enum", "plain")
+            else:
+                out[n] = ("struct", ("plain", "externc")[(n // 2) % 2])
+    return out
+
+
+def sack_model_name(n, kinds):
+    return ("ns__N%d" if kinds[n][1] == "ns" else "N%d") % n
+
+
+def sack_header(deps, src, kinds, n_included):
+    """-> (main header text, included header text or None).  The first
+    `n_included` definitions of `src` go into inc.hpp."""
+    def cpp(n):
+        return ("ns::N%d" if kinds[n][1] == "ns" else "N%d") % n
+
+    def member(n, d):
+        if kinds[n][0] == "union":
+            return "%s a%d;" % (cpp(d), d)
+        if kinds[d][0] != "enum" and (n + d) % 3 == 0:
+            return "%s m%d[2];" % (cpp(d), d)
+        if (n + d) % 3 == 1:
+            return "A%d_t m%d;" % (d, d)
+        return "%s m%d;" % (cpp(d), d)
+
+    def members_of(n):
+        ds = sorted(deps[n])
+        if ds:
+            k = n % len(ds)
+            ds = ds[k:] + ds[:k]          # spec/DemandSort.tla Members(n, deps)
+        return ds
+
+    def definition(n):
+        kind, form = kinds[n]
+        if kind == "enum":
+            body = "enum N%d { N%d_A = %d, N%d_B = %d };" % (n, n, n, n, n + 10)
+        else:
+            first = "uint8_t o1;" if kind == "union" else "uint8_t own;"
+            inner = " ".join([first] + [member(n, d) for d in members_of(n)])
+            if form == "anon":
+                body = "typedef struct { %s } N%d;" % (inner, n)
+            elif form == "class":
+                body = "class N%d { public: %s };" % (n, inner)
+            else:
+                body = "%s N%d { %s };" % (kind, n, inner)
+        if form == "ns":
+            body = "namespace ns { %s }" % body
+        elif form == "externc":
+            body = 'extern "C" { %s }' % body
+        return body + "\ntypedef %s A%d_t;\n" % (cpp(n), n)
+
+    inc = "#include <stdint.h>\n" + "".join(definition(n) for n in src[:n_included]) if n_included else None
+    main = ('#include "inc.hpp"\n' if n_included else "#include <stdint.h>\n") + "".join(definition(n) for n in src[n_included:])
+    return main, inc
+
+
+def sack_env_for_graph(deps, kinds):
+    """the same definitions as a specification environment (dependency order)"""
+    defs, idx = [], {}
+    for n in topo_order(deps):
+        kind = kinds[n][0]
+        ds = sorted(deps[n])
+        if ds:
+            k = n % len(ds)
+            ds = ds[k:] + ds[:k]
+        if kind == "enum":
+            defs.append(S.EnumDef([n, n + 10]))
+        elif kind == "union":
+            defs.append(S.UnionDef([{"d": 0, "t": S.Int(1)}] + [{"d": j + 1, "t": S.Ref(idx[d])} for j, d in enumerate(ds)]))
+        else:
+            ms = [S.Mem("plain", S.Int(1))]
+            for d in ds:
+                if kinds[d][0] != "enum" and (n + d) % 3 == 0:
+                    ms.append(S.Mem("fixed", S.Ref(idx[d]), 2))
+                else:
+                    ms.append(S.Mem("plain", S.Ref(idx[d])))
+            defs.append(S.StructDef(ms))
+        idx[n] = len(defs)
+    return defs, idx
+
+
+# ---------------------------------------------------------------------------
 # running prophyc
 # ---------------------------------------------------------------------------
 INTERNAL_BASES = ("ValueError", "KeyError", "LookupError", "AttributeError", "TypeError", "IndexError", "AssertionError",
